@@ -82,6 +82,26 @@ Definition show_finding_full (f : finding) : string :=
 Definition show_outcome (o : load_outcome) : string :=
   match o with Loaded => "LOADED" | Unsafe info => "UNSAFE " ++ show_json info end.
 
+(* Interpreter.unused_assignments returns `defined - used`, a Python set: the order in which the
+   UnusedVariables findings come out is the set's iteration order (string hashes), which the harness
+   observes and passes in; everything else is in program order *)
+Definition is_unused_finding (f : finding) : bool := fst (f_site f) =? "UnusedVariables".
+Definition unused_var_of (f : finding) : string :=
+  match f_trig f with TTuple (BStr v :: _) => v | _ => "" end.
+Fixpoint take_while {A} (p : A -> bool) (l : list A) : list A :=
+  match l with [] => [] | x :: r => if p x then x :: take_while p r else [] end.
+Fixpoint drop_while {A} (p : A -> bool) (l : list A) : list A :=
+  match l with [] => [] | x :: r => if p x then drop_while p r else l end.
+Definition reorder_unused (order : list string) (fs : list finding) : list finding :=
+  let notu := fun f => negb (is_unused_finding f) in
+  let pre := take_while notu fs in
+  let rest := drop_while notu fs in
+  let us := take_while is_unused_finding rest in
+  let post := drop_while is_unused_finding rest in
+  let picked := flat_map (fun v => filter (fun f => unused_var_of f =? v) us) order in
+  let others := filter (fun f => negb (mem_str (unused_var_of f) order)) us in
+  pre ++ picked ++ others ++ post.
+
 (* verdict | findings | to_dict() | what check_safety writes to json_output_path | loader.load outcome *)
 Definition show_report (r : option (list finding)) : string :=
   match r with
@@ -122,14 +142,18 @@ Definition handle_analysis (cmd : string) (args : list sexp) : option string :=
     end
   else if cmd =? "report" then
     match args with
-    | [SList l; protos; stds; reprs] =>
-        match ops_of_sexps l, protos_of_sexp protos, strs_of_sexp stds, reprs_of_sexp reprs with
-        | Some p, Some pr, Some sl, Some tbl =>
+    | [SList l; protos; stds; reprs; order] =>
+        match ops_of_sexps l, protos_of_sexp protos, strs_of_sexp stds, reprs_of_sexp reprs, strs_of_sexp order with
+        | Some p, Some pr, Some sl, Some tbl, Some ord =>
             Some (match run p with
-                  | Ok s => "OK " ++ show_report (analyze (lookup_repr tbl) (fun m => mem_str m sl) pr s)
+                  | Ok s => "OK " ++ show_report
+                              (match analyze (lookup_repr tbl) (fun m => mem_str m sl) pr s with
+                               | Some fs => Some (reorder_unused ord fs)
+                               | None => None
+                               end)
                   | Err e => "ERR " ++ err_name e
                   end)
-        | _, _, _, _ => Some "!bad-args"
+        | _, _, _, _, _ => Some "!bad-args"
         end
     | _ => None
     end
